@@ -607,6 +607,36 @@ def split_rules(model, rep, rule_geo, rule_blocks, rule_sub=None,
                 okc, txt = _conformity(rd, cells_v)
                 _v(rep, rule_conf, okc, f"{tag}:conforming", txt, fn.path,
                    f"{clsn}.{meth}", txt, fn.lineno)
+            if rule_conf and rd.dim == 3 and any(
+                    len(set(f)) == 4 for f in (rd.facets or [])):
+                # A quadrilateral face shared by two cells can be seen by
+                # them with local numberings that differ by any symmetry of
+                # the face; neither of its diagonals is invariant under a
+                # quarter turn.  A split that selects rows of t by a fixed
+                # local pattern therefore cuts the common face along
+                # different diagonals for some admissible numbering: the
+                # choice has to depend on *global* vertex numbers
+                # (comparisons / argsort / argmin over self.t).
+                looks = any(
+                    (isinstance(n, ast.Compare) and "self.t" in src(n))
+                    or (isinstance(n, ast.Call) and src(n.func).split(".")[-1]
+                        in ("argsort", "argmin", "argmax", "sort", "min",
+                            "max", "lexsort", "take_along_axis")
+                        and "self.t" in src(n))
+                    for n in walk_no_nested(fn.node))
+                _v(rep, rule_conf, looks, f"{tag}:any-numbering",
+                   "the diagonal of every quadrilateral face is chosen from "
+                   "global vertex numbers", fn.path, f"{clsn}.{meth}",
+                   f"{clsn}.{meth} selects the vertices of every simplex by "
+                   f"fixed local positions and never looks at the global "
+                   f"vertex numbers: two cells that see their common "
+                   f"quadrilateral face with different local numberings "
+                   f"(any mesh not built as a tensor grid / as an extrusion "
+                   f"of index-sorted triangles, e.g. after oriented() or "
+                   f"joining rotated parts) cut it along different "
+                   f"diagonals - the simplex mesh has the right volume but "
+                   f"is not conforming (interior faces with one neighbour)",
+                   fn.lineno)
             if rule_sub and "replace" in cap:
                 sub = cap["replace"][-1][1].get("_subdomains")
                 nb = len(cl.children)
